@@ -172,7 +172,7 @@ func main() {
 	}
 	split := &partitioning.DataSplit{}
 
-	n := r.N(120000, 3000000)
+	n := r.N(120000, 2000000)
 	r.Parallel(n, func(c *vk.Case) {
 		rng := c.Rng
 		var limit int
